@@ -427,7 +427,7 @@ def _sanit(name):
 
 def resolve_ref(t, ref):
 	if ref["mode"] == "name":
-		return ref["name"]
+		return ref.get("spelled", ref["name"])      # "spelled": another spelling that resolves to the same column (its sanitised accessor)
 	if ref["mode"] == "vector":
 		return t[ref["name"]]
 	return Vector(list(ref["values"]), name=ref.get("name")) if ref.get("name") is not None else Vector(list(ref["values"]))
